@@ -507,3 +507,133 @@ let op_dotnamed (args : sx) : string =
        | _ -> "(err)")
   | _ -> raise (Bad "dotnamed")
 let () = Hashtbl.replace table "dotnamed" op_dotnamed; Hashtbl.replace classifiers "dotnamed" classify_dot
+
+(* ---------- S-gen: the four generators ---------- *)
+(* canonical form of a generated formula: the right-nested "&" chain as a sorted list of conjuncts,
+   operand lists sorted (fsem of the chain depends only on the multiset of conjuncts, counting only on
+   the multiset of operands) *)
+let rec conj_list (f : form) : form list =
+  match f with FBin (BAnd, a, b) -> a :: conj_list b | x -> [x]
+let canon_conj (pv : nat -> string) (f : form) : string =
+  let vars l = List.map (function FVar v -> pv v | g -> form_str g) l in
+  let sorted l = "(" ^ String.concat " " (List.sort compare l) ^ ")" in
+  let rec go f =
+    match f with
+    | FTrue -> "T" | FFalse -> "F"
+    | FVar v -> pv v
+    | FCountC (op, fs, k) -> "(CC " ^ show_cop op ^ " " ^ sorted (vars fs) ^ " " ^ dec_of_n k ^ ")"
+    | FNot (FBin (BAnd, FVar a, FVar b)) -> "(nonedge " ^ sorted [pv a; pv b] ^ ")"
+    | FQuant (QForall, vs, FBin (BImplies, body, FCountV (AtLeast, l, r))) ->
+        "(max " ^ sorted (List.map pv vs) ^ " " ^ sorted (List.map go (conj_list body)) ^ " " ^ sorted (vars l) ^ " " ^ sorted (vars r) ^ ")"
+    | g -> form_str g in
+  go f
+let canon_form (pv : nat -> string) (f : form) : string list = List.map (canon_conj pv) (conj_list f)
+let show_canon l = "(ok (" ^ String.concat " " (List.sort compare l) ^ "))"
+
+let op_queens (args : sx) : string =
+  match args with
+  | L [n] -> show_canon (canon_form (fun v -> string_of_int (int_of_nat v)) (queens_form (nat_atom n)))
+  | _ -> raise (Bad "queens")
+(* large boards: only the shape (glue arithmetic): number of constraints, largest index *)
+let op_queensbig (args : sx) : string =
+  match args with
+  | L [n] -> let n = int_atom n in Printf.sprintf "(ok %d %d)" (6 * n - 2 + 1) (n * n - 1)
+  | _ -> raise (Bad "queensbig")
+
+(* sudoku r (text) ; white space beyond ASCII is tagged c:s by the harness *)
+let op_sudoku (args : sx) : string =
+  match args with
+  | L [r; L txt] ->
+      let tbl = Hashtbl.create 4 in
+      let cps = List.map (fun a -> let s = atom a in
+        match String.index_opt s ':' with
+        | None -> n_of_dec s
+        | Some i -> let c = String.sub s 0 i in (if s.[i + 1] = 's' then Hashtbl.replace tbl c ()); n_of_dec c) txt in
+      let ws c = ascii_ws c || Hashtbl.mem tbl (dec_of_n c) in
+      let r = int_atom r in
+      let sq = r * r in
+      let hints = hints_of_text ws (nat_of_int (sq * sq)) cps in
+      let pv v = let v = int_of_nat v in Printf.sprintf "(%d %d)" (v / (sq + 1)) (v mod (sq + 1)) in
+      let hs = List.map (fun (c, d) -> Printf.sprintf "(%d %d)" (int_of_nat c) (int_of_nat d)) hints in
+      show_canon (hs @ canon_form pv (sudoku_form (nat_of_int r) []))
+  | _ -> raise (Bad "sudoku")
+
+let edges_of (x : sx) : (nat * nat) list =
+  List.map (function L [a; b] -> (nat_atom a, nat_atom b) | _ -> raise (Bad "edge")) (list_of x)
+let cp_offset = 500
+(* clique (u all) (order) (edges) *)
+let op_clique (args : sx) : string =
+  match args with
+  | L (L [u; all] :: L order :: es :: _) ->
+      let vs = List.map nat_atom order in
+      let e = edges_of es in
+      let comp = if atom u = "1" then comp_undir vs e else comp_dir vs e in
+      let pv v = let v = int_of_nat v in if v >= cp_offset then Printf.sprintf "(C %d)" (v - cp_offset) else string_of_int v in
+      let cp v = nat_of_int (int_of_nat v + cp_offset) in
+      let f = if atom all = "1" then form_all comp else form_max vs comp cp in
+      show_canon (canon_form pv f)
+  | _ -> raise (Bad "clique")
+
+(* graphcheck (V E u) out-or-err : is the real output an admissible answer to the request? *)
+let op_graphcheck (args : sx) : string =
+  match args with
+  | L [L [v; e; u]; out] ->
+      let vv = nat_atom v and ee = nat_atom e and uu = (atom u = "1") in
+      (match out with
+       | A "err" -> if feasible vv ee uu then "(reject refused-a-feasible-request)" else "(accept)"
+       | o ->
+           if not (feasible vv ee uu) then "(reject answered-an-infeasible-request)"
+           else if valid_output vv ee uu (edges_of o) then "(accept)" else "(reject not-E-distinct-candidate-edges)")
+  | _ -> raise (Bad "graphcheck")
+let show_edges l = "(" ^ String.concat " " (List.map (fun (a, b) -> Printf.sprintf "(%d %d)" (int_of_nat a) (int_of_nat b)) l) ^ ")"
+(* convert u (edges) *)
+let op_convert (args : sx) : string =
+  match args with
+  | L [u; es] -> "(ok " ^ show_edges (read_graph (atom u = "1") (edges_of es)) ^ ")"
+  | _ -> raise (Bad "convert")
+(* colors k (edges) : the colour graph as a set of unordered pairs of (vertex colour) *)
+let op_colors (args : sx) : string =
+  match args with
+  | L [k; u; es] ->
+      let e = read_graph (atom u = "1") (edges_of es) in
+      let k = int_atom k in
+      let verts = List.sort_uniq compare (List.concat_map (fun (a, b) -> [int_of_nat a; int_of_nat b]) e) in
+      let order = List.concat_map (fun v -> List.init k (fun c -> (nat_of_int v, nat_of_int c))) verts in
+      let pr (v, c) = Printf.sprintf "(%d %d)" (int_of_nat v) (int_of_nat c) in
+      let pairs = List.map (fun (x, y) -> let a = pr x and b = pr y in if a <= b then "(" ^ a ^ " " ^ b ^ ")" else "(" ^ b ^ " " ^ a ^ ")") (aug e order) in
+      "(ok (" ^ String.concat " " (List.sort_uniq compare pairs) ^ "))"
+  | _ -> raise (Bad "colors")
+let classify_gen (_ : sx) (real : string) (_ : string) : string =
+  if real = "(panic)" then "panic" else if real = "(not-a-formula)" then "illformed" else "output"
+let () =
+  List.iter (fun (n, f) -> Hashtbl.replace table n f; Hashtbl.replace classifiers n classify_gen)
+    [("queens", op_queens); ("queensbig", op_queensbig); ("sudoku", op_sudoku); ("clique", op_clique);
+     ("graphcheck", op_graphcheck); ("convert", op_convert); ("colors", op_colors)]
+
+(* end-to-end on small instances: the models of the model's formula (brute force over fsem), as sorted
+   lists of the variables that are true, over the free variables the formula mentions *)
+let models_of (pv : nat -> string) (f : form) : string =
+  let vars = List.sort_uniq compare (List.filter (fun v -> var_is_free f v) (all_vars f)) in
+  let rec asgs = function [] -> [[]] | v :: r -> List.concat_map (fun l -> [(v, true) :: l; (v, false) :: l]) (asgs r) in
+  if List.length vars > 18 then "(too-many-variables)" else
+  let ms = List.filter_map (fun a ->
+    let s v = (try List.assoc v a with Not_found -> false) in
+    if fsem f s then Some ("(" ^ String.concat " " (List.sort compare (List.filter_map (fun (v, b) -> if b then Some (pv v) else None) a)) ^ ")") else None) (asgs vars) in
+  "(ok (" ^ String.concat " " (List.sort compare (List.map pv vars)) ^ ") (" ^ String.concat " " (List.sort compare ms) ^ "))"
+let op_queensmodels (args : sx) : string =
+  match args with
+  | L [n] -> models_of (fun v -> string_of_int (int_of_nat v)) (queens_form (nat_atom n))
+  | _ -> raise (Bad "queensmodels")
+let op_cliquemodels (args : sx) : string =
+  match args with
+  | L (L [u; all] :: L order :: es :: _) ->
+      let vs = List.map nat_atom order in
+      let e = edges_of es in
+      let comp = if atom u = "1" then comp_undir vs e else comp_dir vs e in
+      let pv v = let v = int_of_nat v in if v >= cp_offset then Printf.sprintf "(C %d)" (v - cp_offset) else string_of_int v in
+      let cp v = nat_of_int (int_of_nat v + cp_offset) in
+      models_of pv (if atom all = "1" then form_all comp else form_max vs comp cp)
+  | _ -> raise (Bad "cliquemodels")
+let () =
+  List.iter (fun (n, f) -> Hashtbl.replace table n f; Hashtbl.replace classifiers n (fun _ real _ -> if real = "(panic)" then "panic" else "models"))
+    [("queensmodels", op_queensmodels); ("cliquemodels", op_cliquemodels)]
